@@ -148,6 +148,11 @@ impl Execution {
 
         init_panic_hook(config.clone());
         CurrentSchedule::init(self.initial_schedule.clone());
+        // Labels and tags are per-execution state. `cleanup` clears them when an execution ends
+        // normally, but an execution that fails unwinds past `cleanup`; start from an empty world
+        // so that nothing of a failed execution leaks into a later run on this thread.
+        TASK_ID_TO_TAGS.with(|cell| cell.borrow_mut().clear());
+        LABELS.with(|cell| cell.borrow_mut().clear());
         UNGRACEFUL_SHUTDOWN_CONFIG.set(config.ungraceful_shutdown_config);
 
         EXECUTION_STATE.set(&state, move || {
